@@ -213,6 +213,15 @@ impl Scenario for C17 {
             callers = vec![calls];
             p.calls_before_start = 0;
         }
+        if !faults && !tight && r.chance(1, 50) {
+            // a crowd: 100..300 callers with one call each, all outstanding together before the first answer comes
+            let n = r.range(100, 300) as usize;
+            callers = (0..n)
+                .map(|_| vec![CallSpec { timeout_ms: 20_000 + 3 * m, start_delay_ms: r.below(40), reply: if r.chance(1, 10) { "twice" } else { "normal" }.to_string(), delay_ms: 500 + r.below(1500), to_unconnected: false, jump_to_wrap: 0, unencodable: false, abandon_ms: 0 }])
+                .collect();
+            p.calls_before_start = 0;
+            p.lock_holds.clear();
+        }
         if tight {
             let ci = r.below(callers.len() as u64) as usize;
             let c = &callers[ci][0];
@@ -244,7 +253,7 @@ impl Scenario for C17 {
         if p.callers.iter().flatten().any(|c| c.timeout_ms == u64::MAX && (p.faults || !p.conn_fault.is_empty() || c.to_unconnected || !(c.reply == "normal" || c.reply == "twice"))) {
             return RunOutput::default();
         }
-        if p.callers.is_empty() || p.callers.len() > 16 {
+        if p.callers.is_empty() || p.callers.len() > 400 {
             return RunOutput::default();
         }
         let world = World::new(tape, keep, p.salt);
@@ -260,7 +269,7 @@ impl Scenario for C17 {
             components_stubbed: &["TCP (SimNet)", "EPMD (stub)", "remote node: handshake acceptor + rex model with an independent frame/term reader"],
             assumptions: &["the peer ticks every 5 simulated seconds so that the receiver's 10 s read timeout (a C19 question) does not interfere", "RpcTimeout is judged inadmissible only if a reply addressed to the call was written by the peer at least `margin` before the call returned (margin = injected network/yield delay bound)"],
             fault_prefixes: &["fault.", "net."],
-            expected_probes: &["probe.c17.ok", "probe.c17.ok_with_unbounded_timeout", "probe.c17.unencodable_request_rejected", "probe.c17.old_reply_sent_again", "probe.c17.long_history", "probe.c17.reply_with_legacy_pid_tag", "probe.c17.timeout", "probe.c17.reply_after_timeout_dropped", "probe.c17.duplicate_reply_dropped", "probe.c17.unknown_pid_reply_dropped", "probe.c17.not_connected", "probe.c17.send_failed", "probe.c17.liveness_probe_ok", "probe.c17.counter_moved_to_wrap", "probe.c17.calls_before_start", "probe.c17.call_to_a_second_node_answered", "probe.c17.call_given_up_by_its_caller", "probe.c17.answer_to_a_given_up_call_dropped"],
+            expected_probes: &["probe.c17.ok", "probe.c17.ok_with_unbounded_timeout", "probe.c17.unencodable_request_rejected", "probe.c17.old_reply_sent_again", "probe.c17.long_history", "probe.c17.reply_with_legacy_pid_tag", "probe.c17.timeout", "probe.c17.reply_after_timeout_dropped", "probe.c17.duplicate_reply_dropped", "probe.c17.unknown_pid_reply_dropped", "probe.c17.not_connected", "probe.c17.send_failed", "probe.c17.liveness_probe_ok", "probe.c17.counter_moved_to_wrap", "probe.c17.calls_before_start", "probe.c17.call_to_a_second_node_answered", "probe.c17.call_given_up_by_its_caller", "probe.c17.crowd_of_outstanding_calls", "probe.c17.answer_to_a_given_up_call_dropped"],
         }
     }
 }
@@ -554,6 +563,9 @@ async fn scenario(w: &Arc<World>, p: &Plan) {
 
     if p.callers.iter().any(|c| c.len() >= 64) {
         w.stat("probe.c17.long_history");
+    }
+    if p.callers.len() >= 100 {
+        w.stat("probe.c17.crowd_of_outstanding_calls");
     }
     let mut tasks = Vec::new();
     for (start, dur) in p.lock_holds.iter().copied() {
